@@ -209,6 +209,17 @@ def gen_thr_input(rng, i, boundary_heavy=False):
            "prior": prior_calls is None and rng.random() < 0.1, "prior_calls": prior_calls, "dtp": dtp, "dtn": dtn,
            "route": routes.pick(rng, 0.12) if (dtp is None and not intdt and not f4dt) else None,
            "rseed": rng.randint(0, 2**31 - 1)}
+    if (prior_calls or inp["prior"]) and dtp is None and not intdt and not f4dt and not inp["route"] and rng.random() < 0.3:
+        # the object's scores are REPLACED after the earlier queries (what FraudScores' genuines= / frauds= setters do: plain
+        # assignment of pos / neg) by the same number of scores with a different range: anything remembered from the earlier
+        # queries is stale now
+        sh_ = rng.choice([-7.0, 5.0, 100.0])
+        k_ = rng.choice([0.5, 2.0, 4.0])
+        inp["reassign"] = True
+        inp["pos0"], inp["neg0"] = pos, neg
+        inp["pos"] = [k_ * x + sh_ for x in pos]
+        inp["neg"] = [k_ * x + sh_ * rng.choice([1.0, 0.5]) for x in neg]
+        pos, neg = inp["pos"], inp["neg"]
     n_rel = {"tpr": len(pos), "fnr": len(pos), "tnr": len(neg), "fpr": len(neg)}.get(metric, len(pos) + len(neg))
     n_all = {"tpr": len(pos) + ep, "fnr": len(pos) + ep, "tnr": len(neg) + en, "fpr": len(neg) + en}.get(
         metric, len(pos) + len(neg) + ep + en)
@@ -238,6 +249,9 @@ def build_thr(pid: str, inp, clauses) -> Case:
     elif inp.get("f4dt"):
         s = Scores(np.array(pos, dtype=np.float32), np.array(neg, dtype=np.float32), nb_easy_pos=inp["ep"],
                    nb_easy_neg=inp["en"], score_class=inp["sc"], equal_class=inp["ec"])
+    elif inp.get("reassign"):
+        s = Scores(expand_scores(inp["pos0"]), expand_scores(inp["neg0"]), nb_easy_pos=inp["ep"], nb_easy_neg=inp["en"],
+                   score_class=inp["sc"], equal_class=inp["ec"])
     else:
         s = Scores(pos, neg, nb_easy_pos=inp["ep"], nb_easy_neg=inp["en"], score_class=inp["sc"],
                    equal_class=inp["ec"])
@@ -265,6 +279,9 @@ def build_thr(pid: str, inp, clauses) -> Case:
             common.call(getattr(s, pc[0]), pc[1], method=pc[2])
         else:
             common.call(getattr(s, pc[0]), pc[1])
+    if inp.get("reassign"):
+        s.pos = np.sort(np.asarray(pos, dtype=float))
+        s.neg = np.sort(np.asarray(neg, dtype=float))
     pre = []
     ex = exact_case(inp) and not (routed and inp["route"].startswith("sample"))
     scale = max([abs(x) for x in pos + neg] + [1.0]) if not inp.get("big") else 1.0  # integer-valued scores: exact
@@ -330,6 +347,8 @@ def build_thr(pid: str, inp, clauses) -> Case:
         tags.append("float32-dtype")
     if inp.get("big"):
         tags.append("population>=2**19")
+    if inp.get("reassign"):
+        tags.append("scores-reassigned-after-queries")
     if inp.get("prior") or inp.get("prior_calls"):
         tags.append("prior-calls")
     if inp.get("dtp") or inp.get("dtn"):
